@@ -524,6 +524,10 @@ def verify(targets, tier="quick", mode="normal", tags=None, jobs=16):
             total = len(list(_it.product(*alts)))
             only = os.environ.get("PYVC_CASES")          # development: a subset of the cases
             qc = cons[t].ghost.get("quick_cases")
+            tc = cons[t].ghost.get("thorough_cases")
+            if tier != "quick" and tc and not only:
+                only = ",".join(str(x) for x in tc)
+                notes.append("%s: thorough tier verifies the parameter-shape cases %s of %d" % (t, tc, total))
             if tier == "quick" and qc and not only:
                 only = ",".join(str(x) for x in qc)
                 notes.append("%s: quick tier verifies the parameter-shape cases %s of %d (all of them in the thorough tier)"
